@@ -706,6 +706,7 @@ async fn frag_body(c: &FragCase) -> L2 {
     let frames = to_msgs(&wire);
     let n = frames.len();
     let after = (m.after_frames as usize).clamp(1, n - 1);
+    let mut newcomers: Vec<Live> = Vec::new();
     for (k, f) in frames.into_iter().enumerate() {
       if k == after {
         match m.event {
@@ -720,10 +721,12 @@ async fn frag_body(c: &FragCase) -> L2 {
             }
           }
           Bystander::Joins => {
-            // the newcomer's introduction stays queued until the message in progress is out
+            // the newcomer introduces itself once the message in progress is out; until the
+            // ROUTER has seen that introduction it is not addressed (its identity may not be
+            // registered yet although its own handshake has succeeded)
             let id = Some(vec![b'P', b'-', next_label, 0x7f]);
             match connect_peer(&ctx, &env, &ep, &spec, &id, next_label, true).await {
-              Ok(p) => peers.push(Some(p)),
+              Ok(p) => newcomers.push(p),
               Err(e) => return L2::Inconclusive(e),
             }
             next_label += 1;
@@ -759,6 +762,16 @@ async fn frag_body(c: &FragCase) -> L2 {
         }
       }
       Err(e) => return v("message_lost", format!("message {}: the message after the frame-by-frame send did not reach peer {}: {}", mi, tlabel, e)),
+    }
+    for p in newcomers {
+      if let Err(e) = p.sock.send_multipart(to_msgs(&[vec![b'h', b'i', p.label]])).await {
+        return L2::Inconclusive(format!("newcomer {} could not introduce itself: {}", p.label, e));
+      }
+      match router.recv_multipart().await {
+        Ok(f) if f.first().and_then(|m| m.data()).map(|d| d.to_vec()) == p.id => {}
+        other => return L2::Inconclusive(format!("introduction of newcomer {} not received: {:?}", p.label, other.map(|f| f.len()).map_err(|e| e.to_string()))),
+      }
+      peers.push(Some(p));
     }
   }
   for p in peers.iter().flatten() {
